@@ -19,7 +19,9 @@ TOL = 1e-9
 
 
 def layers(ctx):
-    return [layer_bcker_euler, layer_bcker_euler2d, layer_pointwise]
+    from layers.fvm1d import layer_rhs1d
+    from layers.fvm2d import layer_rhs2d
+    return [layer_bcker_euler, layer_bcker_euler2d, layer_pointwise, layer_rhs1d, layer_rhs2d]
 
 
 def totals(g, r, u, p):
@@ -31,7 +33,7 @@ def totals(g, r, u, p):
 def oracle(ctx, seeds=None):
     res = OracleResult()
     for (name, d, g, W, par) in bc_cases_euler(ctx, ctx.n(60, 1500)):
-        m = impl.euler.euler1d(gamma=g)
+        m = impl.pool('euler1d', gamma=g)
         r, u, p = W
         c = np.sqrt(g * p / r)
         ok, out = impl.guarded(m.namedBC, name, d, [np.array([x]) for x in W], par)
@@ -109,7 +111,7 @@ def oracle(ctx, seeds=None):
                 par = dict(p=p * float(ctx.rng.uniform(0.5, 2)))
             elif name == 'dirichlet':
                 par = dict(prim=[np.array([2 * r]), np.array([[1.0], [2.0]]), np.array([3 * p])])
-            m = impl.euler.euler2d(gamma=g)
+            m = impl.pool('euler2d', gamma=g)
             dd = np.array([[nrm[0]], [nrm[1]]])
             ok, out = impl.guarded(m.namedBC, name, dd, [np.array([r]), np.array([[ux], [uy]]), np.array([p])], par)
             rp = dict(bc='2d/' + name, n=nrm, gamma=g, W=(r, ux, uy, p), param={k: v for k, v in par.items() if k != 'prim'})
@@ -154,7 +156,7 @@ def oracle(ctx, seeds=None):
     for name in sorted(impl.euler.euler1d()._bcdict.dict.keys()):
         for i in range(ctx.n(4, 40)):
             g = gens.gamma(ctx.rng)
-            m = impl.euler.euler1d(gamma=g)
+            m = impl.pool('euler1d', gamma=g)
             shared = {}
             for step in range(3):
                 d = [-1, 1, -1][step] if i % 2 == 0 else [1, 1, -1][step]
@@ -222,6 +224,36 @@ def oracle(ctx, seeds=None):
             exp = {'sym': (h, -u), 'inf': (h, u), 'dirichlet': (3.0, -1.0)}.get(name)
             if not ok or exp is None or abs(float(out[0][0]) - exp[0]) > 1e-14 or abs(float(out[1][0]) - exp[1]) > 1e-14:
                 res.fail('sw/' + name + ':definition', "got %r expected %r" % (out, exp), dict(bc='sw/' + name, dir=d))
+    # ---- through the 1D pipeline: the state on the outer side of a boundary face is the boundary kernel applied to the
+    #      reconstructed INNER FACE state (the one the flux sees), on both sides, for unlimited reconstructions too
+    import cfg1d as _c1
+    for i in range(ctx.n(40, 600)):
+        model = str(ctx.rng.choice(['euler', 'euler', 'sw']))
+        cfg = _c1.rand_config(ctx.rng, model=model, per=False, n=int(ctx.rng.integers(2, 8)), smooth=True, units=False,
+                              scheme=_c1.rand_scheme(ctx.rng, ['extrapol2', 'extrapol3', 'extrapolk', 'fromm', 'quick', 'centered', 'muscl', 'extrapol1']))
+        ok, b_ = impl.guarded(_c1.build, cfg)
+        if not ok:
+            continue
+        mod, msh, disc, f = b_
+        ok, _r = impl.guarded(disc.rhs, f)
+        res.case(('pipeline', model, cfg['bcL']['type'], cfg['bcR']['type'], cfg['scheme'][0]))
+        if not ok:
+            continue
+        n = cfg['n']
+        for side, d_, ghost, inner, bc in (('left', -1, [np.array([float(disc.pL[k][0])]) for k in range(mod.neq)], [np.array([float(disc.pR[k][0])]) for k in range(mod.neq)], cfg['bcL']),
+                                           ('right', 1, [np.array([float(disc.pR[k][n])]) for k in range(mod.neq)], [np.array([float(disc.pL[k][n])]) for k in range(mod.neq)], cfg['bcR'])):
+            if not all(np.isfinite(x[0]) for x in inner + ghost):
+                continue
+            ok, exp = impl.guarded(mod.namedBC, bc['type'], d_, [x.copy() for x in inner], _c1.bc_for_impl(bc))
+            if not ok or not all(np.all(np.isfinite(np.asarray(x, dtype=float))) for x in exp):
+                continue
+            for k in range(mod.neq):
+                e_ = float(np.ravel(np.asarray(exp[k], dtype=float))[0]); g_ = float(ghost[k][0])
+                sc = abs(e_) + abs(float(inner[k][0])) + 1e-300
+                if not abs(g_ - e_) <= 1e-12 * sc:
+                    res.fail('pipeline:%s:%s' % (bc['type'], side), "the %s boundary state of the 1D pipeline (%s, %r) is not the '%s' kernel applied to the reconstructed inner face state: component %d is %r, kernel gives %r" %
+                             (side, model, cfg['scheme'], bc['type'], k, g_, e_), dict(cfg=cfg, side=side))
+                    break
     return res
 
 
